@@ -553,8 +553,9 @@ func RunDriver(id, tier string) int {
 					m.Inconclusive = append(m.Inconclusive, fmt.Sprintf("batch %d: wall-clock watchdog (%s) fired at case %d (%s)", batch, timeout, no, class))
 					return
 				}
-				if exit == 66 && race {
-					// race detector exit code handled by race log scan below
+				if exit == 66 && race && ok {
+					// exit code of the race detector: reports are taken from the log
+					scanRaceLogs(m, logPath+".racelog", batch)
 					return
 				}
 				if kind == "died" && ok {
